@@ -533,12 +533,56 @@ def _run_batch(ctx, w, part, fnd, stats, coq_msgs, coq_meta):
         # APPEND fidelity
         _fidelity(ctx, fnd, raw, full, meta, stats)
         ctx.count({"msg": meta["message"][:120], "len": len(raw)}, nontrivial=True)
+        # several items in ONE command, in a random order, preceded or not by items that only need the header
+        # (ENVELOPE, a header subset, BODYSTRUCTURE): each item is what it is when fetched alone
+        pool = [(c, rn, cn) for c, rn, cn in names] + [(None, b"ENVELOPE", "ENVELOPE"), (None, b"BODYSTRUCTURE", "BODYSTRUCTURE"),
+                                                        (None, b"BODY[HEADER.FIELDS (Subject From)]", "BODY.PEEK[HEADER.FIELDS (Subject From)]")]
+        combo = rng.sample(pool, rng.choice([3, 4, 5]))
+        if rng.random() < 0.5:
+            combo.sort(key=lambda x: x[0] is not None)     # header-only items first
+        out, res = _fetch(ctx, w, f"t FETCH {n} (" + " ".join(cn for _, _, cn in combo) + ")", fnd)
+        fr = [r for r in res if r.get("kind") == "fetch" and r["n"] == n]
+        ok, line = _tagged_ok(out)
+        stats["combined"] = stats.get("combined", 0) + 1
+        if not ok or len(fr) != 1:
+            fnd.report(None, "a FETCH of several items gave no (single) answer",
+                       dict(meta, command=" ".join(cn for _, _, cn in combo), reply=repr(out)[:300]))
+        else:
+            for c, rn, cn in combo:
+                if c is not None and R.fetch_item(fr[0], rn) != items[c]:
+                    got = R.fetch_item(fr[0], rn)
+                    fnd.report(None, "an item fetched together with others differs from the same item fetched alone",
+                               dict(meta, command=" ".join(x[2] for x in combo), item=cn,
+                                    alone=repr(items[c])[:200] if not isinstance(items[c], int) else items[c],
+                                    together=repr(got)[:200] if not isinstance(got, int) else got))
+                    break
         # the model
         if len(full) <= 2500:
             obs = clist([f"({cz(c)}, {c_pair(p)}, {cbytes(v)})" for c, p, v in observed])
             coq_msgs.append(f"({cbytes(hdr)}, {cbytes(body_raw)}, {obs})")
             coq_meta.append(dict(meta, hdr=repr(hdr[:300]), body=repr(body_raw[:300]),
                                  observed=[(c, p, repr(v[:120])) for c, p, v in observed]))
+    # a message number that comes to name another message (the last message expunged, a new one appended: MH gives
+    # it the freed number): what is reported for the new message is about the new message
+    if stored:
+        last = len(stored)
+        w.cmd("A", f"t FETCH {last} (RFC822.SIZE)")
+        w.cmd("A", f"t STORE {last} +FLAGS.SILENT (\\Deleted)")
+        w.cmd("A", "t EXPUNGE")
+        fresh = b"Subject: key reuse\r\nFrom: a@example.com\r\n\r\n" + b"x" * rng.randint(700, 1900) + b"\r\n"
+        w.cmd("A", b"t APPEND inbox {%d}\r\n" % len(fresh) + fresh)
+        out, res = _fetch(ctx, w, f"t FETCH {last} (RFC822.SIZE BODY.PEEK[])", fnd)
+        fr = [r for r in res if r.get("kind") == "fetch" and r["n"] == last]
+        stats["key_reuse"] = stats.get("key_reuse", 0) + 1
+        if len(fr) == 1:
+            sz, body = R.fetch_item(fr[0], b"RFC822.SIZE"), R.fetch_item(fr[0], b"BODY[]")
+            if body is None or sz != len(body) or body != fresh:
+                fnd.report(None, "after the last message was expunged and another appended (same MH number), the data "
+                                 "reported for the new message are not the new message's",
+                           {"size": sz, "body_len": None if body is None else len(body), "appended_len": len(fresh)})
+        else:
+            fnd.report(None, "FETCH of a freshly appended message gave no (single) answer", {"reply": repr(out)[:300]})
+        stored = stored[:-1]
     # COPY: identical octets
     picks = sorted(rng.sample(range(1, len(stored) + 1), min(len(stored), 10 if ctx.thorough else 6)))
     if picks:
